@@ -84,3 +84,24 @@ package helpers
 //@   arith int
 //@   prop C16
 //@   ensures spec: result <==> ((c >= '0' && c <= '9') || (c >= 'a' && c <= 'f') || (c >= 'A' && c <= 'F'))
+
+// ----------------------------------------------------------------------------------------------
+// C10: entry-point bit sets. Code splitting puts two files in the same chunk iff their sets of reaching
+// entry points are equal, so the bit-set algebra must be exact: SetBit sets exactly one bit (of exactly this
+// set), HasBit reads it back. bitOf is the mathematical content of a BitSet.
+//@ spec func bitOf(bs BitSet, b uint) bool = ((bs.entries[b/8] >> (b & 7)) & 1) == 1
+
+//@ func (BitSet).HasBit
+//@   arith bv
+//@   prop C10
+//@   modifies nothing
+//@   requires bit/8 < uint(len(bs.entries))
+//@   ensures reads-the-bit: result == bitOf(bs, bit)
+
+//@ func (BitSet).SetBit
+//@   arith bv
+//@   prop C10
+//@   requires bit/8 < uint(len(bs.entries))
+//@   ensures sets-the-bit: bitOf(bs, bit)
+//@   ensures other-bits-kept: forall b uint :: b != bit && b/8 < uint(len(bs.entries)) ==> bitOf(bs, b) == old(bitOf(bs, b))
+//@   ensures other-sets-kept: forall o BitSet, b uint :: !sameArray(o.entries, bs.entries) && b/8 < uint(len(o.entries)) ==> bitOf(o, b) == old(bitOf(o, b))
